@@ -119,9 +119,10 @@ func c17Compress(codec string, data []byte) []byte {
 // the decompressed FASTA of a `file`/`cmd` case is a pure function of the record count
 func c17FileData(nrec int) []byte { return c17Fasta(rand.New(rand.NewSource(int64(nrec)+99)), nrec) }
 
-// ecoPCR files are not in the list: ReadEcoPCR (ecopcr_read.go) calls seq.SetSource on the nil sequence returned with
-// the end of the data and dies of a nil pointer dereference in its own goroutine at the end of EVERY file, complete or
-// not (exit status 2, nothing to tell apart; the panic cannot be recovered by the harness)
+// ecoPCR files are not in this list: ReadEcoPCR (ecopcr_read.go) used to call seq.SetSource on the nil sequence returned
+// with the end of the data and to die of a nil pointer dereference in its own goroutine at the end of EVERY file (a panic
+// the harness cannot recover from).  They have their own generator (c17GenEco), whose in-process cases are emitted only
+// when a subprocess probe shows that the reader of the tree under check ends normally on a complete file.
 var c17Formats = []string{"fasta", "fastq", "genbank", "embl", "csv"}
 
 // c17FormatData: `nrec` records in the given text format (pure function of format and record count)
@@ -207,6 +208,29 @@ func (c17) Gen(rng *rand.Rand, tier string, emit func(string)) {
 		emit("guess p=7 3e610a61630a3e620a67670a " + e)
 		emit("guess p=7 - " + e)
 	}
+	// third pass (multi-member files, other formats at every truncation point, corruption at every bit, ecoPCR): the
+	// cases whose damage falls on the magic number first (see c17RawProne)
+	var later []string
+	sorter := func(l string) {
+		if c17RawProne(l) {
+			emit(l)
+		} else {
+			later = append(later, l)
+		}
+	}
+	c17GenMulti(rng, tier, sorter)
+	c17GenEco(rng, tier, sorter)
+	// thorough: the check runs `thorough_seeds` = 4 harness processes with consecutive seeds; the (mostly exhaustive,
+	// seed-independent) cases of the third pass are dealt out among them: process `seed mod 4` runs every 4th case,
+	// the four processes together run them all
+	part, nparts := c17Partition(tier)
+	for i, l := range later {
+		if i%nparts != part {
+			stat("third-pass-cases-left-to-the-other-seeds")
+			continue
+		}
+		emit(l)
+	}
 	codecs := []string{"gz", "bz2", "xz", "zst"}
 	// every truncation point of one small file per codec (quick: 2 records; thorough: also 12 records)
 	sizes := []int{2}
@@ -245,7 +269,7 @@ func (c17) Gen(rng *rand.Rand, tier string, emit func(string)) {
 		"kseq gz x=" + h(">a\nac\xffgt\n>b\nacgt\n") + " cut=25", "kseq raw x=" + h(">a d e\r\nAC GT\r\nNN\r\n\r\n>b\t x \nGG") + " none",
 		"kseq raw x=" + h(">a\nacgt\n>") + " none", "kseq raw x=" + h(">\nacgt\n") + " none", "kseq raw x=" + h("junk\n>a\x00b c\x00d\nac\n+\n") + " none",
 		"kseq raw x=" + h("@a\nac\n+a\n\nII\n@b\nA\n+\n@\n>c\nTT\n") + " none", "kseq raw x=- none", "kseq gz x=- none", "kseq raw x=" + h("\n\n\n") + " none",
-		"kseq raw x=" + h(">a\n"+strings.Repeat("acgt", 1023)+">") + " none",    // the lone '>' is the last byte of a full 4096-byte buffer
+		"kseq raw x=" + h(">a\n"+strings.Repeat("acgt", 1023)+">") + " none",   // the lone '>' is the last byte of a full 4096-byte buffer
 		"kseq raw x=" + h(">a\n"+strings.Repeat("acgt", 1023)+"\n>") + " none", // … and the first byte of the next one
 		"kseq raw x=" + h(">a\n"+strings.Repeat("acgt", 2047)+"a\n") + " none", "kseq raw x=" + h(strings.Repeat(">a b\nacgtacg\n", 1024)) + " none",
 		"kseq gz nrec=5 tail=3", "kseq gz nrec=5 tail=40", "kseq gz nrec=5 m2cut=5", "kseq gz nrec=5 m2flip=90",
@@ -372,8 +396,6 @@ func (c17) Gen(rng *rand.Rand, tier string, emit func(string)) {
 		emit(fmt.Sprintf("cmd obiconvert pipe gz nrec=400 cut=%d", 10+rng.Intn(len(zp)-10)))
 	}
 	emit(fmt.Sprintf("cmd obiconvert pipe gz:fastq nrec=300 cut=%d", len(c17Compress("gz", c17FormatData("fastq", 300)))-2))
-	c17GenMulti(rng, tier, emit)
-	c17GenEco(rng, tier, emit)
 	n := 520
 	if tier == "thorough" {
 		n = 4000
@@ -478,11 +500,12 @@ func c17Split(s string) (string, string) {
 }
 
 // c17Damage builds the damaged compressed file of a case: f = [_, codec[:format], nrec=N, damage]
-//   cut=K      the first K bytes of the file
-//   flip=B     bit B flipped
-//   m2cut=K    two-member file (the two halves of the data compressed separately), K bytes of the second member kept
-//   m2flip=B   two-member file, bit B of the second member flipped
-//   tail=N     complete file followed by N bytes that are not a compressed stream
+//
+//	cut=K      the first K bytes of the file
+//	flip=B     bit B flipped
+//	m2cut=K    two-member file (the two halves of the data compressed separately), K bytes of the second member kept
+//	m2flip=B   two-member file, bit B of the second member flipped
+//	tail=N     complete file followed by N bytes that are not a compressed stream
 func c17Damage(f []string) (codec string, nrec int, z []byte, label string, ok bool) {
 	sp, nrec, _, z, label, ok := c17DamageX(f)
 	return sp.codec, nrec, z, label, ok
